@@ -270,6 +270,10 @@ func run1(raw json.RawMessage, skipOut *bool) driver.Result {
 	}
 	defer func() { *skipOut = skip }()
 	switch in.K {
+	case "decb", "strb", "islb", "unqb":
+		res := runBytes(in, fail)
+		res.Direct = direct
+		return res
 	case "enc":
 		res := runEnc(in, fail)
 		res.Direct = direct
@@ -455,6 +459,8 @@ func gen(r *coqfmt.Rng, n int, tier string) []json.RawMessage {
 		switch x := r.Intn(1000) / 10; {
 		case r.Intn(125) == 0: // child processes are expensive: ~0.8 %
 			add(input{K: "envp", Cfg: r.Intn(nEnvCfgs), Env: genEnvp(r)})
+		case x < 3:
+			add(genBytesCase(r, tg))
 		case x < 7:
 			add(input{K: "enc", E: r.Intn(6), L: genWords(r, tg)})
 		case x < 13:
@@ -530,7 +536,8 @@ func main() {
 		Prop: "C16", CoqImport: "Dials.Check.C16Check", CoqRun: "run_cases",
 		Rule: "compared cases: random rune lists (valid UTF-8; ASCII for the case decoders) through the 8 case decoders, parse.String at 27 types, " +
 			"the 11 integral slice parsers, strconv.Unquote, the 6 encoders on arbitrary word lists (empty words, single runes, upper-case, digit-leading; non-ASCII uncompared) " +
-			"and decode-encode-decode pipelines, outcome and value compared with the model; child processes started with a hand-built environment block " +
+			"and decode-encode-decode pipelines, outcome and value compared with the model; the decoders, parse.String, the integral slice parsers and Unquote also on " +
+			"arbitrary short BYTE strings (invalid UTF-8, non-ASCII) compared through the model's UTF-8 decoding front end; child processes started with a hand-built environment block " +
 			"(entries without '=', '=X', 'A=B=C', long and non-UTF-8 entries) running env.Source.Value on 4 config set-ups, oracle = the child reports 'returned'; byte-level cases: byte strings of length 0-65536 " +
 			"(mutated seeds, special bytes, invalid UTF-8, NULs, long runs) through 61 entry points incl. float/complex/duration types and the flag helpers' Set, " +
 			"oracle = returned within 2 s without panic; non-trivial: input of at least 2 runes/bytes; distinct = distinct JSON inputs",
